@@ -528,7 +528,7 @@ var portLockFile *os.File // kept referenced: a collected *os.File closes its de
 func portBase() int {
 	portBaseOnce.Do(func() {
 		os.MkdirAll("/tmp/verif-portlocks", 0777)
-		for k := 0; k < 90; k++ {
+		for k := 0; k < 29; k++ { // blocks below the ephemeral port range (32768+)
 			f, err := os.OpenFile(fmt.Sprintf("/tmp/verif-portlocks/%d.lock", k), os.O_CREATE|os.O_RDWR, 0666)
 			if err != nil {
 				continue
@@ -540,7 +540,7 @@ func portBase() int {
 			}
 			f.Close()
 		}
-		portBaseVal = 21000 + 400*90
+		portBaseVal = 21000 + 400*28
 	})
 	return portBaseVal
 }
